@@ -166,6 +166,12 @@ def oracle_c08(case, obs, res):
                     cleared_before = any(
                         any(h["msg"].command == "clear_checkpoint" for h in obs.hook[: effect_window(obs, i)[1]]) for i in reqs
                     )
+                    # in-plan pause messages (hard, or deferred ones honoured at a later checkpoint) of this stage
+                    stage_cmds = [h["msg"].command for h in obs.hook[c.get("hook_start", 0) : c.get("hook_end", len(obs.hook))]]
+                    if "pause" in stage_cmds and any(
+                        h["msg"].command == "clear_checkpoint" for h in obs.hook[: c.get("hook_end", len(obs.hook))]
+                    ):
+                        cleared_before = True
                     hook_end = c.get("hook_end", len(obs.hook))
                     after_end = bool(reqs) and all(effect_window(obs, i)[1] >= hook_end for i in reqs)
                     res.fail(
